@@ -28,12 +28,10 @@
       replayed on the Go code: Turtle yields the triple, TriG fails with "unknown prefix: x").
     * `ttl_default_graph` (Props/C06Ttl.lean) — Turtle statements have no graph name.
 
-  What is NOT proved (stated as a `def`, evidence = correspondence + the Go-vs-Go oracle on all W3C
-  files, generated and mutated documents):
-
-    * `nt_sub_ttl` — needs token-level inclusion lemmas between `Model.NQuads` scanners and the
-      Turtle producers for whole statements; only the token-level part exists (Props/C07Tokens.lean)
-      and the encoder-image part (Props/C07Doc.lean).
+  N-Triples ⊂ Turtle: the unconditional `def nt_sub_ttl` below is FALSE (finding C07-bnode-label-colon:
+  `C07.nt_sub_ttl_refuted`, Props/C07Doc.lean); with the exclusion of blank-node labels containing ':'
+  it is PROVED at document level for all inputs and both packages: `C07.nt_sub_ttl_partial`
+  (Props/C07Doc.lean, Proofs/TtlDocNT.lean).
 -/
 import RdfModel.Props.C06Ttl
 import RdfModel.Proofs.TtlDocSim
@@ -126,8 +124,9 @@ theorem ttl_sub_trig_refuted : ¬ ttl_sub_trig := by
 /-- label-carrying blank nodes of the N-Triples model as blank nodes of the Turtle model -/
 def ntTerm : Term (List Nat) → T := Term.map BN.lbl
 
-/-- FULL STATEMENT (not proved): a grammatical N-Triples document whose IRIs pass the N-Triples decoder's
-    check decodes with the Turtle run (no base, no prefixes) to the same triples. -/
+/-- UNCONDITIONAL STATEMENT: a grammatical N-Triples document whose IRIs pass the N-Triples decoder's
+    check decodes with the Turtle run (no base, no prefixes) to the same triples. REFUTED
+    (`nt_sub_ttl_refuted`, labels containing ':'); proved with that exclusion: `nt_sub_ttl_partial`. -/
 def nt_sub_ttl : Prop :=
   ∀ (urlOk : List Nat → Bool) (resolve) (isSpace : Nat → Bool) (inp : List Nat) (qs : List (Quad (List Nat))),
     (∀ c, isSpace c = inRanges Gen.unicodeSpace c) →
